@@ -140,6 +140,59 @@ Theorem c11_load_accepted : forall ns sp now f m, load_static cur ns sp now f = 
 Proof. exact load_static_accept. Qed.
 Print Assumptions c11_load_accepted.
 
+(* ---- the process time zone (round 5, finding C11-F8, open).  [cur] = the code in a process whose zone has no
+   daylight-saving gap (f_gaps = []: UTC, fixed offsets): every theorem about [cur] above and below holds under that
+   guard.  With a gap the property FAILS: an MDQ entry whose expiration date (UTC reading) falls into the hour the
+   local calendar skips is served for an hour after its freshness period ran out. *)
+Theorem c11_zone_guard : in_zone [] = cur.
+Proof. exact in_zone_nil. Qed.
+Print Assumptions c11_zone_guard.
+
+Theorem c11_zone_gap_refuted : exists g now h, ~ spec (rinit now) h (run (in_zone g) (init now) h).
+Proof. exact c11_zone_gap_refuted_ex. Qed.
+Print Assumptions c11_zone_gap_refuted.
+
+Theorem c11_zone_fix_outside : forall gaps t,
+  (forall a len sh, In (a, len, sh) gaps -> (t < a \/ a + len <= t)%Z) -> zone_fix gaps t = t.
+Proof. exact zone_fix_outside. Qed.
+Print Assumptions c11_zone_fix_outside.
+
+Theorem c11_mdx_fetch_zone_outside : forall g x now srv e,
+  zone_fix g (now + x_period x) = (now + x_period x)%Z -> mdx_fetch (in_zone g) x now srv e = mdx_fetch cur x now srv e.
+Proof. exact mdx_fetch_zone_outside. Qed.
+Print Assumptions c11_mdx_fetch_zone_outside.
+
+(* ---- validity checking (round 5): the code's routing of check_validity switches checking off for a source exactly
+   when its specification did (Spec.cfg_cv); a specification that does not mention check_validity leaves it ON *)
+Theorem c11_validity_switch : forall ns sp, eff_cv ns sp = cfg_cv ns sp.
+Proof. exact validity_switch. Qed.
+Print Assumptions c11_validity_switch.
+
+Theorem c11_validity_default_on : forall ns sp, sp_cv sp = None -> sp_scv sp = true -> eff_cv ns sp = true.
+Proof. exact validity_default_on. Qed.
+Print Assumptions c11_validity_default_on.
+
+Theorem c11_validity_off_only_remote_dict : forall ns sp,
+  eff_cv ns sp = false ->
+  sp_kind sp = KRemote /\ ns = false /\ (sp_cv sp = Some false \/ (sp_imp sp = true /\ sp_scv sp = false)).
+Proof. exact validity_off_only_remote_dict. Qed.
+Print Assumptions c11_validity_off_only_remote_dict.
+
+(* while checking is on, an entity whose descriptors are all past validUntil is not served by a successful load,
+   and an EntitiesDescriptor past its own validUntil is a failed load (any flags, any source kind, any style) *)
+Theorem c11_expired_entity_not_served : forall fl ns sp now p sg m id,
+  load_static fl ns sp now (FBody p sg) = Some m -> cfg_cv ns sp = true ->
+  (forall es, doc_says true now p = Some es -> forall e, In e es -> e_id e = id -> expired now (e_vu e) = true) ->
+  lookup id m = None.
+Proof. exact expired_entity_not_served. Qed.
+Print Assumptions c11_expired_entity_not_served.
+
+Theorem c11_expired_group_fails : forall fl ns sp now vu es sg,
+  cfg_cv ns sp = true -> expired now vu = true -> schema_check es = CkOk ->
+  load_static fl ns sp now (FBody (D (Group vu es)) sg) = None.
+Proof. exact expired_group_fails. Qed.
+Print Assumptions c11_expired_group_fails.
+
 Theorem c11_cert_needs_valid : forall ns sp now d sg m,
   load_static cur ns sp now (FBody (D d) sg) = Some m -> cfg_cert ns sp = true -> sg = SigValid.
 Proof. exact cert_needs_valid. Qed.
